@@ -741,6 +741,166 @@ func H_C12_HasOne(shape int) {
 	verifrt.Observe("log", s.Kinds())
 }
 
+// ---- polymorphic has one (Dog.Toy through toys.ownerid / toys.ownertype)
+
+func N_C12_PolyHasOne(tier int) int { return c12N(tier) }
+
+func H_C12_PolyHasOne(shape int) {
+	sh := c12Shapes[shape]
+	nops, unscoped := len(sh.ops), sh.unscoped
+	mdb := NewMemDB()
+	owners := mdb.AddTable("dogs", []string{"id", "name"}, []string{"id"})
+	owners.AddRow(1, "o")
+	owners.AddRow(2, "p")
+	profiles := mdb.AddTable("toys", []string{"id", "name", "ownerid", "ownertype"}, []string{"id"})
+	model := &c12Model{}
+	o := Dog{ID: 1, Name: "o"}
+	// existing toys 2 and 3: owned by dog 1, dog 2, by a record of another type with
+	// the same key (1, "kids"), or by nobody; dog 1 has at most one of them
+	l1, l2 := 1, 3
+	if sh.fullInit {
+		l1 = verifrt.Concretize(verifrt.Intn("linked1", 0, 3), 0, 3)
+		l2 = verifrt.Concretize(verifrt.Intn("linked2", 0, 3), 0, 3)
+		verifrt.Assume(!(l1 == 1 && l2 == 1))
+		verifrt.Assume(!(l1 == 2 && l2 == 2))
+	}
+	for k, x := range []int{2, 3} {
+		switch []int{l1, l2}[k] {
+		case 0:
+			profiles.AddRow(x, "e", nil, nil)
+			model.rows = append(model.rows, c12Row{id: x})
+		case 1:
+			profiles.AddRow(x, "e", 1, "dogs")
+			model.rows = append(model.rows, c12Row{id: x, owner: 1, typ: 1})
+			o.Toy = Toy{ID: uint(x), OwnerID: 1, OwnerType: "dogs", Name: "e"}
+		case 2:
+			profiles.AddRow(x, "e", 2, "dogs")
+			model.rows = append(model.rows, c12Row{id: x, owner: 2, typ: 1})
+		case 3:
+			profiles.AddRow(x, "e", 1, "kids")
+			model.rows = append(model.rows, c12Row{id: x, owner: 1, typ: 2})
+		}
+	}
+	mdb.Snapshot()
+	s := NewStore()
+	s.OnExecE = mdb.Exec
+	s.OnQuery = mdb.Query
+	db := openReal(stubDialector{nullDefault: true}, s, nil)
+	var kinds []int
+	defer func() { mdb.Dump(c12Label("polymorphic-has-one", kinds, unscoped)) }()
+	for k := 0; k < nops; k++ {
+		tag := "op" + string([]byte{byte('0' + k)})
+		kind := verifrt.Concretize(verifrt.Intn(tag+"_kind", 0, 3), 0, 3)
+		kinds = append(kinds, kind)
+		nt := 0
+		if kind != 3 {
+			nt = 1
+			if kind == 2 && sh.ops[k] == 'w' {
+				nt = verifrt.Concretize(verifrt.Intn(tag+"_targets", 1, 2), 1, 2)
+			}
+		}
+		vals := make([]*Toy, nt)
+		args := make([]interface{}, nt)
+		for j := range vals {
+			if kind != 2 && verifrt.Bool(tag+"_new"+string([]byte{byte('0' + j)})) {
+				vals[j] = &Toy{Name: "n"}
+			} else {
+				vals[j] = &Toy{ID: uint(verifrt.Intn(tag+"_id"+string([]byte{byte('0' + j)}), 2, 4)), Name: "t"}
+			}
+			args[j] = vals[j]
+		}
+		label := c12Label("polymorphic-has-one", kinds, unscoped)
+		verifrt.Tag(label)
+		a := db.Model(&o).Association("Toy")
+		if unscoped {
+			a = a.Unscoped()
+		}
+		var err error
+		switch kind {
+		case 0:
+			err = a.Append(args...)
+		case 1:
+			err = a.Replace(args...)
+		case 2:
+			err = a.Delete(args...)
+		case 3:
+			err = a.Clear()
+		}
+		verifrt.Assert(err == nil, "C12.error:"+label)
+		var ids []int
+		for _, v := range vals {
+			verifrt.Assert(v.ID != 0, "C12.target-without-key:"+label)
+			ids = append(ids, int(v.ID))
+		}
+		unlink := func(i int) {
+			if unscoped {
+				model.rows = append(model.rows[:i:i], model.rows[i+1:]...)
+			} else {
+				model.rows[i].owner = 0
+			}
+		}
+		switch kind {
+		case 0, 1: // has one: Append sets the one link, like Replace
+			for i := len(model.rows) - 1; i >= 0; i-- {
+				if model.rows[i].owner == 1 && model.rows[i].typ == 1 && !containsInt(ids, model.rows[i].id) {
+					unlink(i)
+				}
+			}
+			for _, id := range ids {
+				if i := model.find(id); i >= 0 {
+					model.rows[i].owner, model.rows[i].typ = 1, 1
+				} else {
+					model.rows = append(model.rows, c12Row{id: id, owner: 1, typ: 1})
+				}
+			}
+		case 2:
+			for _, id := range ids {
+				if i := model.find(id); i >= 0 && model.rows[i].owner == 1 && model.rows[i].typ == 1 {
+					unlink(i)
+				}
+			}
+		case 3:
+			for i := len(model.rows) - 1; i >= 0; i-- {
+				if model.rows[i].owner == 1 && model.rows[i].typ == 1 {
+					unlink(i)
+				}
+			}
+		}
+		verifrt.Reach("op-applied")
+		c12SameRows(profiles, "id", "ownerid", model, label)
+		ti, ii := profiles.colIdx("ownertype"), profiles.colIdx("id")
+		for _, r := range profiles.rows {
+			for _, e := range model.rows {
+				if r[ii].i == e.id {
+					if e.typ == 0 {
+						verifrt.Assert(r[ti].null, "C12.stored-links:"+label)
+					} else {
+						verifrt.Assert(!r[ti].null && r[ti].i == internStr([]string{"", "dogs", "kids"}[e.typ]), "C12.stored-links:"+label)
+					}
+				}
+			}
+		}
+		link := 0
+		for _, e := range model.rows {
+			if e.owner == 1 && e.typ == 1 {
+				link = e.id
+			}
+		}
+		want := int64(0)
+		if link != 0 {
+			want = 1
+		}
+		n := db.Model(&Dog{ID: 1}).Association("Toy").Count()
+		verifrt.Assert(n == want, "C12.count:"+label)
+		var found Toy
+		verifrt.Assert(db.Model(&Dog{ID: 1}).Association("Toy").Find(&found) == nil, "C12.error:"+label)
+		verifrt.Assert(int(found.ID) == link, "C12.find:"+label)
+		verifrt.Assert(int(o.Toy.ID) == link, "C12.in-memory:"+label)
+		verifrt.Observe("link", link != 0)
+	}
+	verifrt.Observe("log", s.Kinds())
+}
+
 // ---- belongs to (Owner.Company through owners.companyid)
 
 func N_C12_BelongsTo(tier int) int { return c12N(tier) }
@@ -1043,6 +1203,121 @@ func H_C12_SliceOwners(shape int) {
 			c12SameSet(mem, want, "C12.in-memory:"+label)
 		}
 		verifrt.Observe("links", total)
+	}
+	verifrt.Observe("log", s.Kinds())
+}
+
+// ---- belongs to through a reference column that is not the target's primary key
+// (Shop.Region: shops.regioncode -> regionrefs.code)
+
+func N_C12_BelongsToRef(tier int) int {
+	if tier > 0 {
+		return 3
+	}
+	return 2
+}
+
+func H_C12_BelongsToRef(shape int) {
+	nops := 1 + shape
+	mdb := NewMemDB()
+	shops := mdb.AddTable("shops", []string{"id", "name", "regioncode"}, []string{"id"})
+	regions := mdb.AddTable("regionrefs", []string{"id", "code"}, []string{"id"})
+	regions.AddRow(2, "c2")
+	regions.AddRow(3, "c3")
+	code := func(id int) string { return "c" + string([]byte{byte('0' + id)}) }
+	link := ""
+	if shape == 0 {
+		link = []string{"", "c2", "c3"}[verifrt.Concretize(verifrt.Intn("linked1", 0, 2), 0, 2)]
+	} else {
+		link = "c2"
+	}
+	o := Shop{ID: 1, Name: "s", RegionCode: link}
+	if link == "" {
+		shops.AddRow(1, "s", nil)
+	} else {
+		shops.AddRow(1, "s", link)
+		o.Region = &RegionRef{ID: uint(link[1] - '0'), Code: link}
+	}
+	shops.AddRow(2, "t", "c2")
+	mdb.Snapshot()
+	s := NewStore()
+	s.OnExecE = mdb.Exec
+	s.OnQuery = mdb.Query
+	db := openReal(stubDialector{nullDefault: true}, s, nil)
+	var kinds []int
+	defer func() { mdb.Dump(c12Label("belongs-to-ref", kinds, false)) }()
+	for k := 0; k < nops; k++ {
+		tag := "op" + string([]byte{byte('0' + k)})
+		kind := verifrt.Concretize(verifrt.Intn(tag+"_kind", 0, 3), 0, 3)
+		kinds = append(kinds, kind)
+		var target *RegionRef
+		if kind != 3 {
+			if kind != 2 && verifrt.Bool(tag+"_new") {
+				// a new region with a code of its own
+				target = &RegionRef{Code: "n" + string([]byte{byte('0' + k)})}
+			} else {
+				// an existing region (2, 3) or one that does not exist yet (5); generated keys start at 4
+				id := []int{2, 3, 5}[verifrt.Concretize(verifrt.Intn(tag+"_id", 0, 2), 0, 2)]
+				target = &RegionRef{ID: uint(id), Code: code(id)}
+			}
+		}
+		label := c12Label("belongs-to-ref", kinds, false)
+		verifrt.Tag(label)
+		a := db.Model(&o).Association("Region")
+		var err error
+		switch kind {
+		case 0:
+			err = a.Append(target)
+		case 1:
+			err = a.Replace(target)
+		case 2:
+			err = a.Delete(target)
+		case 3:
+			err = a.Clear()
+		}
+		verifrt.Assert(err == nil, "C12.error:"+label)
+		switch kind {
+		case 0, 1:
+			verifrt.Assert(target.ID != 0, "C12.target-without-key:"+label)
+			link = target.Code
+		case 2:
+			if link == target.Code {
+				link = ""
+			}
+		case 3:
+			link = ""
+		}
+		verifrt.Reach("op-applied")
+		ci := shops.colIdx("regioncode")
+		for _, r := range shops.rows {
+			if r[0].i == 1 {
+				if link == "" {
+					verifrt.Assert(r[ci].null, "C12.stored-links:"+label)
+				} else {
+					verifrt.Assert(!r[ci].null && r[ci].i == internStr(link), "C12.stored-links:"+label)
+				}
+			} else {
+				verifrt.Assert(!r[ci].null && r[ci].i == internStr("c2"), "C12.other-owner-changed:"+label)
+			}
+		}
+		// regions survive
+		verifrt.Assert(len(regions.rows) >= 2, "C12.rows-lost-or-added:"+label)
+		want := int64(0)
+		if link != "" {
+			want = 1
+		}
+		probe := Shop{ID: 1, RegionCode: link}
+		n := db.Model(&probe).Association("Region").Count()
+		verifrt.Assert(n == want, "C12.count:"+label)
+		var found RegionRef
+		verifrt.Assert(db.Model(&probe).Association("Region").Find(&found) == nil, "C12.error:"+label)
+		verifrt.Assert(found.Code == link, "C12.find:"+label)
+		if link == "" {
+			verifrt.Assert(o.RegionCode == "" && (o.Region == nil || o.Region.Code == ""), "C12.in-memory:"+label)
+		} else {
+			verifrt.Assert(o.RegionCode == link && o.Region != nil && o.Region.Code == link, "C12.in-memory:"+label)
+		}
+		verifrt.Observe("link", link)
 	}
 	verifrt.Observe("log", s.Kinds())
 }
